@@ -19,7 +19,7 @@ Bases == {[scheme |-> <<Scheme>>, auth |-> <<Host>>, path |-> p, query |-> q, fr
             p \in BasePaths, q \in {<<>>, << <<113>> >>, << RepQ >>}, f \in {<<>>, << <<102>> >>}}
          \cup {[scheme |-> <<Scheme>>, auth |-> <<au>>, path |-> p, query |-> q, frag |-> <<>>] :
             au \in {UserPort, V6Port, UserOnly}, p \in {<<>>, <<SL, a, SL, b>>}, q \in {<<>>, << <<113>> >>}}
-SegAlpha == {<<a>>, <<b>>, <<DOT>>, <<DOT, DOT>>, <<>>}
+SegAlpha == {<<a>>, <<DOT, DOT, b>>, <<DOT>>, <<DOT, DOT>>, <<>>, <<DOT, DOT, DOT>>}     \* incl. the look-alikes "..b" and "..."
 RECURSIVE SegSeqs(_)
 SegSeqs(n) == IF n = 0 THEN {<<>>} ELSE LET s == SegSeqs(n - 1) IN s \cup {Append(x, g) : x \in {y \in s : Len(y) = n - 1}, g \in SegAlpha}
 RECURSIVE Join(_)
